@@ -106,7 +106,7 @@ func NewExplorer(prog *ssa.Program, entry *ssa.Function, cfg *Config) *Explorer 
 		funcs: map[string]int{}, modelsUsed: map[string]int{}, overridesUsed: map[string]int{}, autoUsed: map[string]int{}, panicsSeen: map[string]int{}, forkSites: map[string]int{},
 		globals: map[*ssa.Global]Ptr{}, inited: map[*ssa.Package]bool{}}
 	ex.cond = sync.NewCond(&ex.mu)
-	ex.initPath = &Path{ex: ex, isInit: true, lits: map[string]*Term{}, litVal: map[string]string{}, lenAx: map[int]bool{}, inj: map[string][]*Term{}, known: map[string]*Term{}, stores: map[string]*StoreData{}, fmtNames: map[string]string{}}
+	ex.initPath = &Path{ex: ex, isInit: true, lits: map[string]*Term{}, litVal: map[string]string{}, lenAx: map[int]bool{}, inj: map[string][]*Term{}, known: map[string]*Term{}, stores: map[string]*StoreData{}, fmtNames: map[string]string{}, fmtLenAx: map[int]bool{}}
 	return ex
 }
 
@@ -263,7 +263,7 @@ func (ex *Explorer) Run() {
 }
 
 func (ex *Explorer) runPath(s *Solver, prefix []bool) {
-	p := &Path{ex: ex, s: s, prefix: prefix, lits: map[string]*Term{}, litVal: map[string]string{}, lenAx: map[int]bool{}, inj: map[string][]*Term{}, known: map[string]*Term{}, stores: map[string]*StoreData{}, fmtNames: map[string]string{}}
+	p := &Path{ex: ex, s: s, prefix: prefix, lits: map[string]*Term{}, litVal: map[string]string{}, lenAx: map[int]bool{}, inj: map[string][]*Term{}, known: map[string]*Term{}, stores: map[string]*StoreData{}, fmtNames: map[string]string{}, fmtLenAx: map[int]bool{}}
 	ip := ex.initPath
 	for _, n := range ip.litOrder {
 		p.lits[n] = ip.lits[n]
